@@ -1,12 +1,17 @@
 #!/bin/sh
-# setup_cmd: build everything from files on disk (offline).
+# setup_cmd: build everything from files on disk (offline): Go harness + extractor (against /repo, -tags verif),
+# regenerated Lean tables, the Lean model, every claimed property's proof module, and the model driver.
 set -e
 cd "$(dirname "$0")/.."
 export GOFLAGS=-mod=mod GOPROXY=off
 mkdir -p .work/bin .work/out evidence replays
 cp /repo/go.sum go/go.sum
-(cd go && for c in harness extract; do [ -d cmd/$c ] && go build -tags verif -o ../.work/bin/$c ./cmd/$c; done; true)
-[ -x .work/bin/extract ] && .work/bin/extract -out lean/KmipModel/Gen || true
+(cd go && go build -tags verif -o ../.work/bin/harness ./cmd/harness && go build -tags verif -o ../.work/bin/extract ./cmd/extract)
+.work/bin/extract -out lean/KmipModel/Gen
 rm -f .work/bin/stamp
-(cd lean && lake build KmipModel kmip-model)
+MODS=$(python3 -c "
+import sys; sys.path.insert(0,'bin')
+from props import PROPS
+print(' '.join('KmipModel.Props.'+p for p in sorted(PROPS)))")
+(cd lean && lake build kmip-model $MODS)
 echo setup-ok
